@@ -291,3 +291,61 @@ func genC04Shapes(w *caseWriter, st *pkgStats) int {
 	}
 	return n
 }
+
+// Shapes that are valid but unusual, shared by the package-level properties: special mode bits on a file larger
+// than any in-memory threshold, backslashes in names (systemd-escaped units), a destination occupied twice under two
+// spellings, a file declared by a glob and again as a configuration file, a user file where the deb changelog
+// goes, a changelog none of whose entries carries a date.
+func genEdgeShapes(w *caseWriter, st *pkgStats) int {
+	n := 0
+	emit := func(tag string, c nfpm.Config, extra []extraFile) {
+		n++
+		runPkgCase(w, fmt.Sprintf("e-%s-%d", tag, n), pkgDesc{YAML: marshalConfig(&c), Files: extra, Formats: rotate(allFormats, n)}, st, nil)
+	}
+	c := baseConfig("modes")
+	c.Contents = files.Contents{
+		{Source: "src/big2.bin", Destination: "/usr/bin/suid-big", FileInfo: &files.ContentFileInfo{Mode: 0o4755}},
+		{Source: "src/big2.bin", Destination: "/usr/bin/sgid-big", FileInfo: &files.ContentFileInfo{Mode: 0o2755, Owner: "root", Group: "games"}},
+		{Source: "src/f1", Destination: "/usr/bin/suid-small", FileInfo: &files.ContentFileInfo{Mode: 0o4711}},
+		{Source: "src/f2", Destination: "/var/spool/sticky-file", FileInfo: &files.ContentFileInfo{Mode: 0o1644}},
+		{Destination: "/var/spool/shared", Type: files.TypeDir, FileInfo: &files.ContentFileInfo{Mode: 0o3775, Group: "staff"}},
+	}
+	emit("special-mode-bits-large-files", c, nil)
+	c = baseConfig("backslash")
+	esc := []extraFile{{Path: "src/esc/mnt-my\\x2ddisk.mount", Hex: hex.EncodeToString([]byte("[Mount]\nWhat=/dev/disk/by-label/my-disk\n")), Mode: 0o644, MTime: 1650000000},
+		{Path: "src/esc/plain.service", Hex: hex.EncodeToString([]byte("[Service]\n")), Mode: 0o644, MTime: 1650000000}}
+	c.Contents = files.Contents{
+		{Source: "src/f1", Destination: "/etc/systemd/system/dev-disk-by\\x2dlabel-data.device"},
+		{Source: "src/esc", Destination: "/usr/lib/systemd/system", Type: files.TypeTree},
+		{Source: "src/f2", Destination: "/opt/back\\slash/dir\\file"},
+	}
+	emit("backslash-in-names", c, esc)
+	c = baseConfig("twice")
+	c.Contents = files.Contents{{Source: "src/f1", Destination: "usr/bin/tool"}, {Source: "src/f2", Destination: "/usr/bin/tool"}}
+	emit("one-place-two-spellings", c, nil)
+	c = baseConfig("filedir")
+	c.Contents = files.Contents{{Source: "src/f1", Destination: "opt/app"}, {Destination: "/opt/app", Type: files.TypeDir}}
+	emit("file-and-dir-one-place", c, nil)
+	c = baseConfig("globconf")
+	c.Contents = files.Contents{{Source: "src/d/*", Destination: "/etc/globconf/"}, {Source: "src/d/x", Destination: "/etc/globconf/x", Type: files.TypeConfigNoReplace}}
+	emit("glob-then-config-for-one-match", c, nil)
+	c = baseConfig("treeconf")
+	c.Contents = files.Contents{{Source: "src/d", Destination: "/etc/treeconf", Type: files.TypeTree}, {Source: "src/d/x", Destination: "/etc/treeconf/x", Type: files.TypeConfig}}
+	emit("tree-then-config-for-one-file", c, nil)
+	for i, occ := range []files.Content{
+		{Source: "src/f1", Destination: "/usr/share/doc/chlog/changelog.Debian.gz"},
+		{Source: "src/f1", Destination: "/usr/share/doc/chlog/changelog.Debian.gz", Packager: "rpm"},
+		{Source: "/usr/share/doc/chlog/NEWS.gz", Destination: "/usr/share/doc/chlog/changelog.Debian.gz", Type: files.TypeSymlink},
+	} {
+		c = baseConfig("chlog")
+		c.Changelog = "changelog.yaml"
+		o := occ
+		c.Contents = files.Contents{{Source: "src/f2", Destination: "/usr/bin/chlog"}, &o}
+		emit(fmt.Sprintf("changelog-path-occupied-%d", i), c, []extraFile{{Path: "changelog.yaml", Hex: hex.EncodeToString([]byte(changelogYAML)), Mode: 0o644, MTime: 1650000100}})
+	}
+	c = baseConfig("nodate")
+	c.Changelog = "changelog.yaml"
+	c.Contents = files.Contents{{Source: "src/f1", Destination: "/usr/bin/nodate"}}
+	emit("changelog-without-dates", c, []extraFile{{Path: "changelog.yaml", Hex: hex.EncodeToString([]byte("- semver: \"1.2.3\"\n  packager: \"No Date <nodate@example.com>\"\n  changes:\n    - note: \"undated\"\n")), Mode: 0o644, MTime: 1650000100}})
+	return n
+}
